@@ -29,7 +29,9 @@ Record Rl (s : pstate) (a : spec) : Prop := {
   r_len : length (made a) = length (handles s);
   r_handles : forall h hi, nth_error (handles s) h = Some hi ->
                 exists m, nth_error (made a) h = Some m /\ good_inode s (mapped hi) m /\ made_from hi = m;
-  r_clean : forall i ii, nth_error (inodes s) i = Some ii -> modified ii = false
+  r_clean : forall i ii, nth_error (inodes s) i = Some ii -> modified ii = false;
+  r_lenf : length (with_model a) = length (handles s);
+  r_flags : forall h hi, nth_error (handles s) h = Some hi -> nth_error (with_model a) h = Some (has_model hi)
 }.
 
 Lemma good_inode_grow : forall s i m m', good_inode s i m -> good_inode (fst (new_inode s m')) i m.
@@ -49,6 +51,30 @@ Proof.
   constructor; cbn; intros; try reflexivity.
   - destruct h; discriminate.
   - destruct i; discriminate.
+  - destruct h; discriminate.
+Qed.
+
+Lemma length_set_nth : forall (A : Type) (l : list A) n v, length (set_nth n v l) = length l.
+Proof. induction l as [|x r IH]; intros [|n] v; cbn; try reflexivity. now rewrite IH. Qed.
+Lemma nth_error_set_nth_same : forall (A : Type) (l : list A) n v, n < length l -> nth_error (set_nth n v l) n = Some v.
+Proof. induction l as [|x r IH]; intros [|n] v H; cbn in *; try lia; [reflexivity|]. apply IH. lia. Qed.
+Lemma nth_error_set_nth_other : forall (A : Type) (l : list A) n k v, k <> n -> nth_error (set_nth n v l) k = nth_error l k.
+Proof.
+  induction l as [|x r IH]; intros [|n] [|k] v H; cbn; try reflexivity; try congruence. apply IH. congruence.
+Qed.
+
+(* the flags of the handles after one more handle was appended *)
+Lemma flags_snoc : forall (a : spec) (b : bool) (hs : list handle_info) x,
+  length (with_model a) = length hs ->
+  (forall h hi, nth_error hs h = Some hi -> nth_error (with_model a) h = Some (has_model hi)) ->
+  has_model x = b ->
+  forall h hi, nth_error (hs ++ [x]) h = Some hi -> nth_error (with_model a ++ [b]) h = Some (has_model hi).
+Proof.
+  intros a b hs x Hl Hf Hb h hi Hh.
+  destruct (lt_dec h (length hs)) as [Hlt|Hge].
+  - rewrite nth_error_app1 in Hh by exact Hlt. rewrite nth_error_app1 by (rewrite Hl; exact Hlt). apply Hf. exact Hh.
+  - rewrite nth_error_app2 in Hh by lia. rewrite nth_error_app2 by lia. rewrite Hl.
+    destruct (h - length hs) as [|k]; cbn in *; [inversion Hh; subst; reflexivity|destruct k; discriminate].
 Qed.
 
 Lemma nth_error_snoc : forall (A : Type) (l : list A) x h v,
@@ -63,17 +89,17 @@ Qed.
 
 (* one step: same output, relation preserved *)
 Lemma step_refines : forall s a o, Rl s a ->
-  let '(s', out) := step AtomicRename PrivateCopy s o in
+  let '(s', out) := step AtomicRename PrivateCopy Refuses s o in
   let '(a', out') := spec_step a o in
   out = out' /\ Rl s' a'.
 Proof.
-  intros s a o R. destruct R as [Rp Rn Rh Rc]. destruct o as [m save|p|h]; cbn [step spec_step].
+  intros s a o R. destruct R as [Rp Rn Rh Rc Rlf Rf]. destruct o as [m save|p|h|h save]; cbn [step spec_step].
   - (* compile *)
     set (s1 := fst (new_inode s m)). set (it := snd (new_inode s m)).
     assert (Hit : it = length (inodes s)) by reflexivity.
     destruct save as [p|].
-    + cbn [new_inode new_handle fst snd]. split; [now rewrite Rn|].
-      constructor; cbn [fs inodes handles saved made].
+    + cbn [new_inode new_handle save_to fst snd]. split; [now rewrite Rn|].
+      constructor; cbn [fs inodes handles saved made with_model].
       * intros q. destruct (Nat.eq_dec q p) as [->|Hne].
         -- rewrite lookup_assign_same. exists m. split; [apply lookup_assign_same|].
            exists {| content := m; modified := false |}. repeat split. cbn [inodes].
@@ -96,8 +122,10 @@ Proof.
       * intros i ii Hi. rewrite <- app_assoc in Hi. apply nth_error_In in Hi. apply in_app_or in Hi.
         destruct Hi as [Hi|Hi]; [apply In_nth_error in Hi; destruct Hi as [k Hk]; eapply Rc; exact Hk|].
         cbn in Hi. destruct Hi as [<-|[<-|[]]]; reflexivity.
-    + cbn [new_inode new_handle fst snd]. split; [now rewrite Rn|].
-      constructor; cbn [fs inodes handles saved made].
+      * rewrite !app_length. cbn. lia.
+      * apply (flags_snoc a true); [exact Rlf|exact Rf|reflexivity].
+    + cbn [new_inode new_handle save_to fst snd]. split; [now rewrite Rn|].
+      constructor; cbn [fs inodes handles saved made with_model].
       * intros q. specialize (Rp q). destruct (lookup q (fs s)) as [ip|]; [|exact Rp].
         destruct Rp as [m0 [E [ii [H1 [H2 H3]]]]]. exists m0. split; [exact E|]. exists ii. repeat split; try assumption. cbn [inodes].
         rewrite nth_error_app1; [exact H1|]. apply nth_error_Some. congruence.
@@ -112,10 +140,12 @@ Proof.
       * intros i ii Hi. apply nth_error_In in Hi. apply in_app_or in Hi.
         destruct Hi as [Hi|Hi]; [apply In_nth_error in Hi; destruct Hi as [k Hk]; eapply Rc; exact Hk|].
         cbn in Hi. destruct Hi as [<-|[]]; reflexivity.
+      * rewrite !app_length. cbn. lia.
+      * apply (flags_snoc a true); [exact Rlf|exact Rf|reflexivity].
   - (* load *)
     pose proof (Rp p) as Hp. destruct (lookup p (fs s)) as [ip|].
     + destruct Hp as [m0 [E [ii [H1 [H2 H3]]]]]. rewrite E, H1. cbn [new_inode new_handle fst snd]. rewrite H3.
-      split; [now rewrite Rn|]. constructor; cbn [fs inodes handles saved made].
+      split; [now rewrite Rn|]. constructor; cbn [fs inodes handles saved made with_model].
       * intros q. specialize (Rp q). destruct (lookup q (fs s)) as [iq|]; [|exact Rp].
         destruct Rp as [m1 [E1 [i1 [G1 [G2 G3]]]]]. exists m1. split; [exact E1|]. exists i1. repeat split; try assumption. cbn [inodes].
         rewrite nth_error_app1; [exact G1|]. apply nth_error_Some. congruence.
@@ -130,6 +160,8 @@ Proof.
       * intros i i' Hi. apply nth_error_In in Hi. apply in_app_or in Hi.
         destruct Hi as [Hi|Hi]; [apply In_nth_error in Hi; destruct Hi as [k Hk]; eapply Rc; exact Hk|].
         cbn in Hi. destruct Hi as [<-|[]]; reflexivity.
+      * rewrite !app_length. cbn. lia.
+      * apply (flags_snoc a false); [exact Rlf|exact Rf|reflexivity].
     + rewrite Hp. split; [reflexivity|]. constructor; assumption.
   - (* call *)
     destruct (nth_error (handles s) h) as [hi|] eqn:Eh.
@@ -137,45 +169,105 @@ Proof.
       constructor; assumption.
     + assert (nth_error (made a) h = None) as -> by (apply nth_error_None; rewrite Rn; now apply nth_error_None).
       split; [reflexivity|]. constructor; assumption.
+  - (* compile() again on the instance behind handle h *)
+    destruct (nth_error (handles s) h) as [hi|] eqn:Eh.
+    2:{ assert (nth_error (made a) h = None) as -> by (apply nth_error_None; rewrite Rn; now apply nth_error_None).
+        split; [reflexivity|]. constructor; assumption. }
+    destruct (Rh h hi Eh) as [m0 [E [[ii0 [K1 [K2 K3]]] Hm]]]. rewrite E, (Rf h hi Eh).
+    assert (Hlt : h < length (handles s)) by (apply nth_error_Some; congruence).
+    destruct (has_model hi) eqn:Ehm.
+    2:{ split; [reflexivity|]. constructor; assumption. }
+    rewrite Hm.
+    destruct save as [p|]; cbn [new_inode save_to fst snd]; unfold remap; (split; [reflexivity|]);
+      constructor; cbn [fs inodes handles saved made with_model].
+    + (* paths, saved to p *)
+      intros q. destruct (Nat.eq_dec q p) as [->|Hne].
+      * rewrite lookup_assign_same. exists m0. split; [apply lookup_assign_same|].
+        exists {| content := m0; modified := false |}. repeat split. cbn [inodes].
+        rewrite nth_error_app2 by (rewrite app_length; cbn; lia). rewrite app_length. cbn.
+        replace (length (inodes s) + 1 - (length (inodes s) + 1)) with 0 by lia. reflexivity.
+      * rewrite !lookup_assign_other by exact Hne. specialize (Rp q).
+        destruct (lookup q (fs s)) as [ip|]; [|exact Rp]. destruct Rp as [m1 [E1 [ii [H1 [H2 H3]]]]].
+        exists m1. split; [exact E1|]. exists ii. repeat split; try assumption. cbn [inodes].
+        rewrite <- app_assoc. rewrite nth_error_app1; [exact H1|]. apply nth_error_Some. congruence.
+    + rewrite length_set_nth. exact Rn.
+    + intros h' hi' Hh'. destruct (Nat.eq_dec h' h) as [->|Hne].
+      * rewrite nth_error_set_nth_same in Hh' by exact Hlt. inversion Hh'; subst hi'. cbn [mapped made_from].
+        exists m0. repeat split; try assumption.
+        exists {| content := m0; modified := false |}. repeat split. cbn [inodes].
+        rewrite <- app_assoc. rewrite nth_error_app2 by lia. now rewrite Nat.sub_diag.
+      * rewrite nth_error_set_nth_other in Hh' by exact Hne.
+        destruct (Rh h' hi' Hh') as [m1 [E1 [[ii [H1 [H2 H3]]] Hm1]]]. exists m1. repeat split; try assumption.
+        exists ii. repeat split; try assumption. cbn [inodes].
+        rewrite <- app_assoc. rewrite nth_error_app1; [exact H1|]. apply nth_error_Some. congruence.
+    + intros i ii Hi. rewrite <- app_assoc in Hi. apply nth_error_In in Hi. apply in_app_or in Hi.
+      destruct Hi as [Hi|Hi]; [apply In_nth_error in Hi; destruct Hi as [k Hk]; eapply Rc; exact Hk|].
+      cbn in Hi. destruct Hi as [<-|[<-|[]]]; reflexivity.
+    + rewrite length_set_nth. exact Rlf.
+    + intros h' hi' Hh'. destruct (Nat.eq_dec h' h) as [->|Hne].
+      * rewrite nth_error_set_nth_same in Hh' by exact Hlt. inversion Hh'; subst hi'. cbn [has_model]. apply Rf. exact Eh.
+      * rewrite nth_error_set_nth_other in Hh' by exact Hne. apply Rf. exact Hh'.
+    + (* paths, nothing saved *)
+      intros q. specialize (Rp q). destruct (lookup q (fs s)) as [ip|]; [|exact Rp].
+      destruct Rp as [m1 [E1 [ii [H1 [H2 H3]]]]]. exists m1. split; [exact E1|]. exists ii. repeat split; try assumption. cbn [inodes].
+      rewrite nth_error_app1; [exact H1|]. apply nth_error_Some. congruence.
+    + rewrite length_set_nth. exact Rn.
+    + intros h' hi' Hh'. destruct (Nat.eq_dec h' h) as [->|Hne].
+      * rewrite nth_error_set_nth_same in Hh' by exact Hlt. inversion Hh'; subst hi'. cbn [mapped made_from].
+        exists m0. repeat split; try assumption.
+        exists {| content := m0; modified := false |}. repeat split. cbn [inodes].
+        rewrite nth_error_app2 by lia. now rewrite Nat.sub_diag.
+      * rewrite nth_error_set_nth_other in Hh' by exact Hne.
+        destruct (Rh h' hi' Hh') as [m1 [E1 [[ii [H1 [H2 H3]]] Hm1]]]. exists m1. repeat split; try assumption.
+        exists ii. repeat split; try assumption. cbn [inodes]. rewrite nth_error_app1; [exact H1|]. apply nth_error_Some. congruence.
+    + intros i ii Hi. apply nth_error_In in Hi. apply in_app_or in Hi.
+      destruct Hi as [Hi|Hi]; [apply In_nth_error in Hi; destruct Hi as [k Hk]; eapply Rc; exact Hk|].
+      cbn in Hi. destruct Hi as [<-|[]]; reflexivity.
+    + rewrite length_set_nth. exact Rlf.
+    + intros h' hi' Hh'. destruct (Nat.eq_dec h' h) as [->|Hne].
+      * rewrite nth_error_set_nth_same in Hh' by exact Hlt. inversion Hh'; subst hi'. cbn [has_model]. apply Rf. exact Eh.
+      * rewrite nth_error_set_nth_other in Hh' by exact Hne. apply Rf. exact Hh'.
 Qed.
 
-Theorem run_refines : forall ops s a, Rl s a -> run AtomicRename PrivateCopy s ops = spec_run a ops.
+Theorem run_refines : forall ops s a, Rl s a -> run AtomicRename PrivateCopy Refuses s ops = spec_run a ops.
 Proof.
   induction ops as [|o r IH]; intros s a R; cbn [run spec_run]; [reflexivity|].
   pose proof (step_refines s a o R) as H.
-  destruct (step AtomicRename PrivateCopy s o) as [s' out]. destruct (spec_step a o) as [a' out'].
+  destruct (step AtomicRename PrivateCopy Refuses s o) as [s' out]. destruct (spec_step a o) as [a' out'].
   destruct H as [-> R']. f_equal. apply IH. exact R'.
 Qed.
 
 (* every finite history: the machine behaves as the specification (no crash; a call returns the model its handle was
    created from; load(p) yields the model most recently saved to p) *)
-Theorem histories_refine_spec : forall ops, run AtomicRename PrivateCopy empty ops = spec_run spec_empty ops.
+Theorem histories_refine_spec : forall ops, run AtomicRename PrivateCopy Refuses empty ops = spec_run spec_empty ops.
 Proof. intros. apply run_refines. apply Rl_empty. Qed.
 
 Lemma spec_never_crashes : forall ops a, ~ In RCrash (spec_run a ops).
 Proof.
   induction ops as [|o r IH]; intros a H; cbn [spec_run] in H; [exact H|].
   destruct (spec_step a o) as [a' out] eqn:E. destruct H as [H|H]; [|exact (IH a' H)].
-  destruct o as [m save|p|h]; cbn in E.
+  destruct o as [m save|p|h|h save]; cbn in E.
   - inversion E; subst. discriminate.
   - destruct (lookup p (saved a)); inversion E; subst; discriminate.
   - destruct (nth_error (made a) h); inversion E; subst; discriminate.
+  - destruct (nth_error (made a) h) as [m|]; [|inversion E; subst; discriminate].
+    destruct (nth_error (with_model a) h) as [[|]|]; inversion E; subst; discriminate.
 Qed.
 
-Theorem no_history_crashes : forall ops, ~ In RCrash (run AtomicRename PrivateCopy empty ops).
+Theorem no_history_crashes : forall ops, ~ In RCrash (run AtomicRename PrivateCopy Refuses empty ops).
 Proof. intros ops. rewrite histories_refine_spec. apply spec_never_crashes. Qed.
 
 (* the disciplines of the current source are the safe ones *)
 Lemma current_disciplines : save_mode = AtomicRename /\ load_mode = PrivateCopy /\ load_passes_num_bits = true
-  /\ load_sets_shape_and_classes = true.
+  /\ load_sets_shape_and_classes = true /\ recompile_mode = Refuses.
 Proof. repeat split; reflexivity. Qed.
 
 (* with the other disciplines the specification is violated: concrete histories *)
 Lemma inplace_bypath_crashes :
-  In RCrash (run InPlace ByPath empty [OCompile 1 (Some 0); OLoad 0; OCompile 2 (Some 0); OCall 1]).
+  In RCrash (run InPlace ByPath Refuses empty [OCompile 1 (Some 0); OLoad 0; OCompile 2 (Some 0); OCall 1]).
 Proof. vm_compute. tauto. Qed.
 Lemma bypath_stale :
-  run AtomicRename ByPath empty [OCompile 1 (Some 0); OLoad 0; OCompile 2 (Some 0); OLoad 0; OCall 3]
+  run AtomicRename ByPath Refuses empty [OCompile 1 (Some 0); OLoad 0; OCompile 2 (Some 0); OLoad 0; OCall 3]
   <> spec_run spec_empty [OCompile 1 (Some 0); OLoad 0; OCompile 2 (Some 0); OLoad 0; OCall 3].
 Proof. vm_compute. discriminate. Qed.
 
@@ -184,15 +276,30 @@ Lemma save_load_spec : forall a m p,
   spec_run a [OCompile m (Some p); OLoad p; OCall (S (length (made a)))]
   = [RHandle (length (made a)); RHandle (S (length (made a))); RValue m].
 Proof.
-  intros a m p. cbn [spec_run spec_step saved made]. rewrite lookup_assign_same. cbn [spec_run spec_step saved made].
+  intros a m p. cbn [spec_run spec_step saved made with_model]. rewrite lookup_assign_same. cbn [spec_run spec_step saved made with_model].
   rewrite app_length. cbn [length]. replace (length (made a) + 1) with (S (length (made a))) by lia.
   rewrite nth_error_app2 by (rewrite app_length; cbn; lia). rewrite app_length. cbn [length].
   replace (S (length (made a)) - (length (made a) + 1)) with 0 by lia. reflexivity.
 Qed.
 
 Theorem save_load_roundtrip : forall s a m p, Rl s a ->
-  run AtomicRename PrivateCopy s [OCompile m (Some p); OLoad p; OCall (S (length (handles s)))]
+  run AtomicRename PrivateCopy Refuses s [OCompile m (Some p); OLoad p; OCall (S (length (handles s)))]
   = [RHandle (length (handles s)); RHandle (S (length (handles s))); RValue m].
 Proof.
   intros s a m p R. rewrite (run_refines _ s a R). rewrite <- (r_len s a R). apply save_load_spec.
 Qed.
+
+(* compile() on a loaded handle, had it been accepted (code generated from no model): the handle computes the empty
+   network afterwards and so does every later load of the path it saved to *)
+Lemma rebuilds_empty_refuted :
+  run AtomicRename PrivateCopy RebuildsEmpty empty [OCompile 1 (Some 0); OLoad 0; ORecompile 1 (Some 0); OCall 1; OLoad 0; OCall 2]
+  = [RHandle 0; RHandle 1; RHandle 1; RValue EMPTY; RHandle 2; RValue EMPTY]
+  /\ spec_run spec_empty [OCompile 1 (Some 0); OLoad 0; ORecompile 1 (Some 0); OCall 1; OLoad 0; OCall 2]
+  = [RHandle 0; RHandle 1; RError; RValue 1; RHandle 2; RValue 1].
+Proof. split; vm_compute; reflexivity. Qed.
+
+(* a second compile of an instance that holds its model: allowed, saves that model, the handle keeps computing it *)
+Lemma recompile_with_model_spec :
+  run AtomicRename PrivateCopy Refuses empty [OCompile 1 None; ORecompile 0 (Some 3); OCall 0; OLoad 3; OCall 1]
+  = [RHandle 0; RHandle 0; RValue 1; RHandle 1; RValue 1].
+Proof. vm_compute. reflexivity. Qed.
